@@ -20,7 +20,11 @@ SPEC = dict(
                 "one-document index; per-language exhaustive sweep: every word of 1..6 letters over the 7 letters most used by the "
                 "language package's rule code (read from the Go source at run time) through each stemmer/normaliser filter, the words "
                 "up to 5 letters through the bundled analyzer, plus mutations of the words of the package's test tables and stop-word "
-                "list (~5.5 million direct calls per run: no panic, offsets/increments, determinism on a sample)."),
+                "list (~5.5 million direct calls per run: no panic, offsets/increments, determinism on a sample); pattern-bearing text: "
+                "strings synthesised (regexp/syntax) to match the regexp sources read from analysis/tokenizer and analysis/char, "
+                "embedded between case-length-changing runes / invalid bytes, for every regexp-driven component; "
+                "TokenFrequencies.MergeAll and composite fields: merged map and every source map after the merge compared with the "
+                "model (CMerge), sources unchanged / merged = sum checked on Document.Analyze with a composite field."),
     trust=["the goextract section that turns the switch of foldToASCII and the kana tables of cjk_width.go into Coq lists",
            "unicode tables (IsLetter, IsSpace, IsLower, IsUpper, IsNumber, ToLower, Mn/Me/Mc) and TokenMap contents are parameters of the model, tabulated by the "
            "harness per case", "Base/UTF8.v models unicode/utf8 (Go standard library)"],
